@@ -674,7 +674,11 @@ func (fr *Frame) instr(b *ssa.BasicBlock, in ssa.Instruction, st *State) *Exit {
 		if ss == nil {
 			fr.setHavoc(x)
 		} else {
-			fr.setVal(x, fmt.Sprintf("(%s %s)", ss.fnames[x.Field], fr.val(x.X).S))
+			t := fr.setVal(x, fmt.Sprintf("(%s %s)", ss.fnames[x.Field], fr.val(x.X).S))
+			// a field read out of a struct value (value receivers): the declared non-nil invariant of that field
+			if stT, ok := x.X.Type().Underlying().(*types.Struct); ok && fe.eng.specs.isNonNil(x.X.Type(), stT.Field(x.Field).Name()) {
+				fe.assumeNonNilValue(st, t)
+			}
 		}
 	case *ssa.Index:
 		idx := fr.val(x.Index).S
@@ -1180,9 +1184,39 @@ func (fe *FuncEnc) assumeLoadedInv(t Term, x *ssa.UnOp) {
 	if fa, ok := x.X.(*ssa.FieldAddr); ok {
 		stT := fa.X.Type().Underlying().(*types.Pointer).Elem()
 		f := stT.Underlying().(*types.Struct).Field(fa.Field)
-		if fe.eng.specs.isNonNil(stT, f.Name()) && t.K == SInt {
-			fe.assume(fmt.Sprintf("(not (= %s 0))", t.S))
+		if fe.eng.specs.isNonNil(stT, f.Name()) {
+			fe.assumeNonNilValue(fe.curState, t)
 		}
+	}
+}
+
+// assumeNonNilValue: what `nonnil T.f` says about a value of field f: a reference is not nil; a slice of references has no
+// nil element (in the heap as it is now — the invariant is re-assumed whenever the field is read again).
+func (fe *FuncEnc) assumeNonNilValue(st *State, t Term) {
+	switch t.K {
+	case SInt:
+		fe.assume(fmt.Sprintf("(not (= %s 0))", t.S))
+	case SSlice:
+		sl, ok := t.T.Underlying().(*types.Slice)
+		if !ok || st == nil || fe.sorts.SortOf(sl.Elem()) != SInt {
+			return
+		}
+		if _, isIface := sl.Elem().Underlying().(*types.Interface); !isIface && !isRefLike(sl.Elem()) {
+			return
+		}
+		h, _, isB := fe.sliceHeap(sl.Elem())
+		if isB {
+			return
+		}
+		fe.pre.decl(fmt.Sprintf("(declare-fun at_Int (%s Slice Int) Int)", fe.heapSorts[h]))
+		hc := fe.fresh(h + "_at")
+		fe.declConst(hc, fe.heapSorts[h])
+		fe.assumeGlobal(fmt.Sprintf("(= %s %s)", hc, fe.hget(st, h)))
+		g := fe.curGuard
+		if g == "" {
+			g = "true"
+		}
+		fe.assume(fmt.Sprintf("(forall ((qi Int)) (! (=> (and %s (<= 0 qi) (< qi (s_len %s))) (not (= (at_Int %s %s qi) 0))) :pattern ((at_Int %s %s qi))))", g, t.S, hc, t.S, hc, t.S))
 	}
 }
 
